@@ -514,6 +514,13 @@ func (wr *Writer) appendStruct(rv reflect.Value, depth int, si *sinfo) {
 	}
 	var stat appendStatus
 	for _, fi := range fields {
+		if 1 < len(fi.index) {
+			// A promoted field. If an embedded pointer on the way to it is
+			// nil there is nothing to encode, as with encoding/json.
+			if _, err := rv.FieldByIndexErr(fi.index); err != nil {
+				continue
+			}
+		}
 		if !indented {
 			wr.buf = append(wr.buf, cs...)
 			indented = true
